@@ -384,8 +384,9 @@ func followRule(r *node, ctx *Ctx) (err error) {
 	case len(r.dst) > 0 && len(r.src) > 0 && r.static:
 		// V2V node with static source.
 		// Just assign the source it to destination.
-		ctx.buf = append(ctx.buf[:0], r.src...)
-		err = ctx.set(r.dst, &ctx.buf, r.ins)
+		i := ctx.reserveBB()
+		ctx.bufBB[i] = append(ctx.bufBB[i], r.src...)
+		err = ctx.set(r.dst, &ctx.bufBB[i], r.ins)
 	case len(r.dst) > 0 && len(r.src) > 0 && !r.static:
 		// V2V node with dynamic source.
 		// Get source value.
